@@ -109,7 +109,7 @@ class SignerVersion:
         if type(iteration) != int or iteration < 0 or iteration >= (2**16):
             raise ValueError("Invalid iteration (must be a 16-bit unsigned int)")
 
-        self._hash = hash.lower()
+        self._hash = bytes.fromhex(hash).hex()
         self._iteration = iteration
 
     @property
